@@ -710,6 +710,7 @@ class Unit:
             mut_target = canary.one('in')[1].replace(' ', '')
             mutation = parse_subst(canary.one('subst')[1])
         mutated = False
+        seen_generated = set()
         for s in self.secs:
             if s.kind == 'prelude':
                 for p in s.arg.split():
@@ -736,7 +737,9 @@ class Unit:
                     text, impl, info = self._extract_fn(s, None)
                 em.add("// ---- extracted fn %s line %d sha %s ----" % (s.arg, info['line'], info['sha']))
                 for g in info.get('generated', []):
-                    em.add(g)
+                    if g not in seen_generated:         # the same table may be used by several functions of one unit: emit it once
+                        seen_generated.add(g)
+                        em.add(g)
                 if impl:
                     em.add(impl + " {")
                 em.add(text, owner=info['emitted'], ref=info)
